@@ -76,8 +76,10 @@ class _PokTranslator(_util.OverrideableDataDesc):
         self.kwoarg_names |= other.kwoarg_names
 
         from sigtools import wrappers
+        # rebuild in the order the decorators were applied: what an outer
+        # start=/end= form converts depends on what the inner ones did
         self.custom_getter = wrappers.Combination(
-            self.custom_getter, other.custom_getter)
+            other.custom_getter, self.custom_getter)
 
     def _prepare(self):
         intersection = self.posoarg_names & self.kwoarg_names
